@@ -871,6 +871,11 @@ func (w *World) wedge(what string) int {
 		}
 		return wedgeRetry
 	}
+	// a reader that keeps running in one place: an unbounded loop
+	if p := SpinProof(); p != "" {
+		w.find(FWedge, "%s; %s", detail, p)
+		return wedgeFound
+	}
 	// a reader stuck on a lock: needs two dumps and nobody runnable inside fsnotify
 	if !anyFsnotifyRunnable() {
 		time.Sleep(time.Second)
